@@ -86,6 +86,34 @@ func runSweeps(tier string, seed int64, langs []int, perPair int) {
 	}
 }
 
+// uniformSentences: one word repeated (index 0, 1, the last ones, powers of two, random) at every count around
+// the accepted ones - the big integer of the validator is then zero, all ones, or a single repeated pattern
+func runUniform(seed int64, langs []int, cls string) {
+	r := newRng(seed, "uniform")
+	for _, lang := range langs {
+		for _, ix := range []int{0, 1, 2, 7, 8, 1023, 1024, 2046, 2047, r.intn(2048), r.intn(2048)} {
+			for _, n := range []int{11, 12, 13, 15, 18, 21, 24, 25} {
+				maybeCut()
+				idx := make([]int, n)
+				for i := range idx {
+					idx[i] = ix
+				}
+				recCheck(sentence(idx, lang, " "), int64(lang), Event{"cls": cls})
+				if n >= 12 && n <= 24 && n%3 == 0 { // the same with every candidate kept but the last word completing a valid checksum
+					ent := bitsToBytes(func() []byte {
+						b := make([]byte, n/3*32)
+						for g := 0; g*11 < len(b); g++ {
+							setGroup(b, g, ix)
+						}
+						return b
+					}())
+					recCheck(sentence(indicesOf(ent), lang, " "), int64(lang), Event{"cls": cls + "valid"})
+				}
+			}
+		}
+	}
+}
+
 var otherSeps = []string{"\t", "\n", "  ", "\u00a0", "\u3000", "\u2003", "\u2009", "\u202f", "\u0085", "\u2028", ",", "-", ""}
 
 // runMutations: classes of damaged sentences derived from valid ones (C03, C15)
